@@ -214,8 +214,13 @@ def run(ctx):
     check_draw(ctx, K, W)
     check_layout(ctx, K)
     ctx.rule("C03-INDEP", "draws of different batches are independent: run_worker gives task i its own spawned child generator (shared implementation with C10-SPAWN).")
-    from .C10 import check_spawn
+    from .C10 import check_spawn, check_fwd, check_prov
     check_spawn(_Relabel(ctx, {"C10-SPAWN": "C03-INDEP"}))
+    ctx.rule("C03-STREAM", "the linear draws come from the generator handed to the sampler, advanced by whatever was drawn before: every draw site and every forwarded rng derives "
+                           "from the rng parameter / self.rng / the task's spawned child, never from a generator re-built from the same seed (a re-seeded copy replays the same "
+                           "stream on every call and overlaps the stream the acceptance uniforms were taken from) (shared with C10-PROV / C10-FRESH / C10-FWD).")
+    check_prov(_Relabel(ctx, {"C10-PROV": "C03-STREAM", "C10-FRESH": "C03-STREAM"}))
+    check_fwd(_Relabel(ctx, {"C10-FWD": "C03-STREAM", "C10-SELFRNG": "C03-STREAM"}))
     ctx.rule("C03-API", "n_linear_samples reaches the kernel from every public entry point (shared implementation with C02-API and C14-BUDGET): API -> helper -> make_full_samples* -> worker -> kernel.")
     from .C02 import check_api
     check_api(_Relabel(ctx, {"C02-API": "C03-API"}))
